@@ -7,6 +7,7 @@
      calls : fn |-> [args, k, got]      lib.fn(args...) and the constant of the generated C body
      rw    : gv |-> [wl, wc]            written through lib / read in C, written in C / read through lib ("ok" | text)
      addr  : name |-> BOOLEAN           ffi.addressof(lib, name) = &name taken in C
+     obs.alen : constant / enumerator name |-> length text | "error:X"   ffi.typeof("char[NAME]") (and sizeof, new)
    Verdict <<"VERDICT", id, V, D, G>>: V property clauses that fail <<clause, item, class>>,
    D model divergences, G disagreements between gcc and the specification's platform model
    (these make the whole record unusable: machinery error, never a verdict).                  *)
@@ -116,6 +117,18 @@ Verdict(r) ==
                               \/ IdealEnumerator(ev, c, x[1], x[2]) = "error" /\ ~enErr(x)}
       enClass(x) == IF IdealEnumerator(ev, c, x[1], x[2]) = "error" /\ o.k[enName(x)] = c.en[x[1]].vals[x[2]]
                     THEN unchecked ELSE ""
+      \* ---- constants and enumerators as array lengths in type strings: ffi.typeof("char[K]") etc.
+      zeroClass == "const-as-array-length:mismatch-with-C-value-0"
+      isErr(x) == Len(x) >= 6 /\ SubSeq(x, 1, 6) = "error:"
+      lenBad(exp, got) == \/ exp = <<"error">> /\ ~isErr(got)
+                          \/ exp[1] = "ok" /\ got # exp[2]
+      vLen == {n \in DOMAIN ev.kc : Has(o.alen, n) /\ lenBad(IdealLen(ev, c, fl, n), o.alen[n])}
+      lenClass(n) == IF LenZeroClass(ev, c, fl, n) /\ o.alen[n] = "0" THEN zeroClass ELSE ""
+      vEnLen == {x \in enItems : Has(o.alen, enName(x)) /\ lenBad(IdealEnLen(ev, c, x[1], x[2]), o.alen[enName(x)])}
+      enLenClass(x) == IF IdealEnumerator(ev, c, x[1], x[2]) = "error" /\ o.alen[enName(x)] = c.en[x[1]].vals[x[2]]
+                       THEN unchecked ELSE ""
+      dLen == {n \in DOMAIN ev.kc : Has(o.alen, n) /\ ModelLen(ev, c, fl, n) # <<"any">>
+                                     /\ lenBad(ModelLen(ev, c, fl, n), o.alen[n])}
       \* ---- typedefs, functions, variables: present with the declared type
       vTd == {n \in DOMAIN ev.td : ~DependsOnBroken(ev, c, fl, ev.td[n]) /\ o.td[n] # NormApi(ev.td[n])}
       fnFree(f) == ~DependsOnBroken(ev, c, fl, ev.fn[f])
@@ -134,9 +147,10 @@ Verdict(r) ==
           THEN << {<<"build", r.err, "">>}, {}, {} >>
      ELSE << {<<"su", KeyStr(key), "">> : key \in vSu} \cup {<<"k", n, "">> : n \in vK}
              \cup {<<"en", enName(x), enClass(x)>> : x \in vEn}
+             \cup {<<"len", n, lenClass(n)>> : n \in vLen} \cup {<<"len", enName(x), enLenClass(x)>> : x \in vEnLen}
              \cup {<<"td", n, "">> : n \in vTd} \cup {<<"fn", f, "">> : f \in vFn} \cup {<<"gv", g, "">> : g \in vGv}
              \cup {<<"addr", x, "">> : x \in vAddr} \cup {<<"call", f, "">> : f \in vCall} \cup {<<"rw", g, "">> : g \in vRw},
-             {<<"model", "su", KeyStr(key)>> : key \in dSu},
+             {<<"model", "su", KeyStr(key)>> : key \in dSu} \cup {<<"model", "len", n>> : n \in dLen},
              {KeyStr(key) : key \in gBad} >>
 
 TInit == k \in 1..Len(Traces) /\ done = FALSE /\ cenv = EnvInit /\ hist = <<>> /\ variant = "faithful"
